@@ -36,6 +36,7 @@ from importlib import abc, machinery
 import forml
 
 LOGGER = logging.getLogger(__name__)
+_LOADING = threading.RLock()  # guards the process-global import state (sys.path, sys.modules, sys.meta_path) swapped below
 
 
 class Finder(abc.MetaPathFinder):
@@ -190,11 +191,12 @@ def search(*paths: typing.Union[str, pathlib.Path]) -> None:
     Args:
         *paths: Paths to be inserted to ``sys.path``.
     """
-    new = []
-    for item in itertools.chain((str(pathlib.Path(p).resolve()) for p in paths), sys.path):
-        if item not in new:
-            new.append(item)
-    sys.path = new
+    with _LOADING:  # not in the middle of a component load that has put its own path in front temporarily
+        new = []
+        for item in itertools.chain((str(pathlib.Path(p).resolve()) for p in paths), sys.path):
+            if item not in new:
+                new.append(item)
+        sys.path = new
 
 
 @contextlib.contextmanager
@@ -224,7 +226,7 @@ def isolated(name: str, path: typing.Optional[typing.Union[str, pathlib.Path]]) 
     Returns:
         Imported module.
     """
-    with _unloaded(name), _searched(*([path] if path else [])):
+    with _LOADING, _unloaded(name), _searched(*([path] if path else [])):
         importlib.invalidate_caches()
         module = importlib.import_module(name)
     if path and not isinstance(module.__loader__, Finder.Loader):
@@ -252,9 +254,6 @@ def context(module: types.ModuleType) -> typing.Iterable[None]:
         sys.meta_path = [f for f in sys.meta_path if f not in finders]
         if module.__name__ in sys.modules:
             del sys.modules[module.__name__]
-
-
-_LOADING = threading.RLock()
 
 
 def load(
